@@ -14,6 +14,9 @@ CONSTANTS
   R2S <- R2Sdef_q_cyl_free
   ZStep = 1
   CentralRule = "halfopen"
+  SpanHandling = "central"
+  ZWeight = "count"
+  Reading = "cells"
   SpanRule = "whole"
 INVARIANT SingleCorrect
 INVARIANT PeriodicCorrect
